@@ -25,7 +25,12 @@ func lookupFlow[T any](urlTree *URLTree[T], url string) lookupFlowNodeResult[T] 
 
 	for _, part := range splitURL {
 		log.Trace().Msgf("lookupFlowNodeResult::Looking up part %v", part)
-		if currentNode.WildcardChild != nil && currentNode.WildcardChild.hasValue() {
+		// a wildcard child stands for the rest of the URL on ITS side of the host/path boundary
+		// (host.com/* is not a pattern for the longer host host.com.evil.org); directly under the root the
+		// wildcard is the match-all pattern "*" and the first part of a URL is always a host part
+		if currentNode.WildcardChild != nil && currentNode.WildcardChild.hasValue() &&
+			(currentNode == urlTree.Root ||
+				currentNode.WildcardChild.IsPartOfHost == part.IsPartOfHost) {
 			flows = append(flows, *currentNode.WildcardChild.Value)
 		}
 
